@@ -401,8 +401,15 @@ func (v *vc) enterLoop(fr *frame, st *state, li *loopInfo, hdrEntry map[*ssa.Bas
 	// havoc
 	n := st.clone()
 	mod := v.loopModSet(fr, li)
+	if mod.allocs || mod.all {
+		nt := v.fresh("top")
+		v.decl(nt, "Int")
+		v.fact(n, fmt.Sprintf("(>= %s %s)", nt, st.top))
+		n.top = nt
+	}
 	if mod.all {
 		n.epoch = v.newEpoch(true, nil)
+		v.epochs[n.epoch].top = n.top
 		n.heaps = map[string]string{}
 	} else {
 		for _, hname := range sortedKeys(mod.heaps) {
@@ -412,7 +419,7 @@ func (v *vc) enterLoop(fr *frame, st *state, li *loopInfo, hdrEntry map[*ssa.Bas
 			}
 			nh := v.fresh(hname)
 			v.decl(nh, sort)
-			v.heapAxiom(nh, hname)
+			v.heapAxiom(nh, hname, n.top)
 			v.firstIter = append(v.firstIter, firstIterEq{pos: len(v.items), a: nh, b: v.getHeap(st, hname)})
 			n.heaps[hname] = nh
 		}
@@ -436,18 +443,29 @@ func (v *vc) enterLoop(fr *frame, st *state, li *loopInfo, hdrEntry map[*ssa.Bas
 			n.ghost[g] = ng
 		}
 	}
-	if mod.allocs {
-		nt := v.fresh("top")
-		v.decl(nt, "Int")
-		v.fact(n, fmt.Sprintf("(>= %s %s)", nt, st.top))
-		n.top = nt
-	}
 	for _, in := range h.Instrs {
 		phi, ok := in.(*ssa.Phi)
 		if !ok {
 			break
 		}
 		entryVal := fr.vals[phi]
+		// a phi that only merges values arriving from outside the loop (every back edge carries the phi
+		// itself) is not changed by the loop: it keeps the value it has on entry
+		unchanged := true
+		for i, pred := range h.Preds {
+			isBack := false
+			for _, b := range li.backs {
+				if b == pred {
+					isBack = true
+				}
+			}
+			if isBack && i < len(phi.Edges) && phi.Edges[i] != ssa.Value(phi) {
+				unchanged = false
+			}
+		}
+		if unchanged && len(li.backs) > 0 {
+			continue
+		}
 		fr.vals[phi] = v.havoc(phi.Name()+"."+phi.Comment, phi.Type(), n)
 		v.firstIter = append(v.firstIter, firstIterEq{pos: len(v.items), a: fr.vals[phi], b: entryVal})
 	}
@@ -754,6 +772,7 @@ func (v *vc) havocAll(st *state) {
 	v.decl(nt, "Int")
 	v.fact(st, fmt.Sprintf("(>= %s %s)", nt, st.top))
 	st.top = nt
+	v.epochs[st.epoch].top = nt
 }
 
 func (v *vc) execAlloc(fr *frame, st *state, in *ssa.Alloc) {
@@ -841,7 +860,7 @@ func (v *vc) addrOf(fr *frame, st *state, p ssa.Value) *addr {
 }
 
 func (v *vc) nilCheck(fr *frame, st *state, ref string, in ssa.Instruction) {
-	if fr.fc != nil && fr.fc.nosafety {
+	if v.noSafety(fr) {
 		v.fact(st, fmt.Sprintf("(not (= %s 0))", ref))
 		return
 	}
@@ -980,7 +999,7 @@ func (v *vc) fieldAddr(fr *frame, st *state, in *ssa.FieldAddr) {
 }
 
 func (v *vc) boundsCheck(fr *frame, st *state, in ssa.Instruction, idx, n string) {
-	if fr.fc != nil && fr.fc.nosafety {
+	if v.noSafety(fr) {
 		v.fact(st, fmt.Sprintf("(and (<= 0 %s) (< %s %s))", idx, idx, n))
 		return
 	}
@@ -1060,7 +1079,7 @@ func (v *vc) sliceOp(fr *frame, st *state, in *ssa.Slice) {
 	} else {
 		lo = "0"
 	}
-	safety := !(fr.fc != nil && fr.fc.nosafety)
+	safety := !(v.noSafety(fr))
 	switch xt := in.X.Type().Underlying().(type) {
 	case *types.Slice:
 		s := v.val(fr, st, in.X)
@@ -1137,7 +1156,7 @@ func (v *vc) makeSlice(fr *frame, st *state, in *ssa.MakeSlice) {
 	ln := v.intIdx(fr, st, in.Len)
 	cp := v.intIdx(fr, st, in.Cap)
 	cond := fmt.Sprintf("(and (<= 0 %s) (<= %s %s))", ln, ln, cp)
-	if fr.fc != nil && fr.fc.nosafety {
+	if v.noSafety(fr) {
 		v.fact(st, cond)
 	} else {
 		v.oblige(st, "safety", "make", v.site(in), cond, nil)
@@ -1222,7 +1241,7 @@ func (v *vc) typeAssert(fr *frame, st *state, in *ssa.TypeAssert) {
 		fr.setTuple(in, []string{valn, okn})
 		return
 	}
-	if !(fr.fc != nil && fr.fc.nosafety) {
+	if !(v.noSafety(fr)) {
 		v.oblige(st, "safety", "assert", v.site(in), ok, nil)
 	} else {
 		v.fact(st, ok)
@@ -1294,7 +1313,7 @@ func (v *vc) mapUpdate(fr *frame, st *state, in *ssa.MapUpdate) {
 	mt := in.Map.Type().Underlying().(*types.Map)
 	k := v.val(fr, st, in.Key)
 	val := v.val(fr, st, in.Value)
-	if !(fr.fc != nil && fr.fc.nosafety) {
+	if !(v.noSafety(fr)) {
 		v.oblige(st, "safety", "mapnil", v.site(in), fmt.Sprintf("(not (= %s 0))", m), nil)
 	}
 	hv, hd, hl := v.mapHeaps(mt)
@@ -1339,9 +1358,12 @@ func (v *vc) recv(fr *frame, st *state, in *ssa.UnOp) {
 		okc := v.fresh("recv.ok")
 		v.decl(okc, "Bool")
 		fr.setTuple(in, []string{val, okc})
+		v.instrHook(fr, st, in, []string{val}, []types.Type{ct.Elem()}, "recvval")
 		return
 	}
 	fr.vals[in] = val
+	// "at after recv#k" ghost updates may refer to the received value as recvval
+	v.instrHook(fr, st, in, []string{val}, []types.Type{ct.Elem()}, "recvval")
 }
 
 func (v *vc) execSelect(fr *frame, st *state, in *ssa.Select) {
